@@ -775,5 +775,53 @@ class PunctuatedWords(Part):
         return res
 
 
+def cased_letters():
+    """Every character that has another letter case (scan of all code points)."""
+    import sys
+
+    return [chr(c) for c in range(sys.maxunicode + 1)
+            if not (0xD800 <= c <= 0xDFFF) and (chr(c).lower() != chr(c) or chr(c).upper() != chr(c))]
+
+
+class EveryCasedLetter(Part):
+    name = "listed_words_with_every_cased_letter"
+    desc = ("one listed word per cased letter of Unicode (g<letter>h and <letter>stan), written in the text as listed, "
+            "lower-cased and in every other spelling whose lower-case form is the same: none survives")
+
+    CHUNK = 200
+
+    def __init__(self, tier, seed):
+        self.tier, self.seed = tier, seed
+        self.letters = cased_letters()
+
+    def cases(self):
+        return [{"from": i} for i in range(0, len(self.letters), self.CHUNK)]
+
+    def run(self, case):
+        res = Res()
+        letters = self.letters[case["from"]: case["from"] + self.CHUNK] if "letter" not in case else [case["letter"]]
+        for c in letters:
+            for w in ("g" + c + "h", c + "stan"):
+                if w[-1] in "abcdefABCDEF" or w[0] in "abcdefABCDEF" or not (w[0].isalpha() and w[-1].isalpha()):
+                    continue
+                spellings = [w, w.lower()] + [v for v in (w.upper(), w.swapcase(), w.title(), w.capitalize()) if v.lower() == w.lower()]
+                spellings = list(dict.fromkeys(spellings))
+                lines = ["hostname %s-core x%sx %s" % (v, v, v) for v in spellings]
+                got = run_lines([w], None, "saltForTest", lines)
+                res.transitions += len(lines)
+                for v, ln, g in zip(spellings, lines, got):
+                    res.evals += 1
+                    res.nt((w, v))
+                    left = v in g or w.lower() in g.lower()
+                    res.out(left)
+                    if left:
+                        res.violation("listed-word-survives|%s" % ("as-listed" if v == w else "other-letter-case"),
+                                      "word %r (U+%04X inside) listed; %r -> %r" % (w, ord(c), ln, g), {"letter": c})
+        res.states = len(letters)
+        if "letter" not in case:
+            res.samples.append({"letters": "U+%04X..U+%04X" % (ord(letters[0]), ord(letters[-1])), "count": len(letters)})
+        return res
+
+
 def parts(tier, seed):
-    return [ListsPart(tier, seed), SecretsPart(tier, seed), SeedPart(tier, seed), HistoryPart(tier, seed), OwnOutputWords(tier, seed), SecondAnonymizer(tier, seed), HashCollisions(tier, seed), ScrubbedLines(tier, seed), WithOtherOptions(tier, seed), Separators(tier, seed), PunctuatedWords(tier, seed)]
+    return [ListsPart(tier, seed), SecretsPart(tier, seed), SeedPart(tier, seed), HistoryPart(tier, seed), OwnOutputWords(tier, seed), SecondAnonymizer(tier, seed), HashCollisions(tier, seed), ScrubbedLines(tier, seed), WithOtherOptions(tier, seed), Separators(tier, seed), PunctuatedWords(tier, seed), EveryCasedLetter(tier, seed)]
